@@ -930,11 +930,246 @@ def _chain_result(cur, op, sub):
     return cur.intersection(Interval(sub["c"], sub["d"]))     # None: keep the object
 
 
+# ------------------------------------------------------------------------------------------------ histories on angle intervals
+
+def gen_aprog(ctx):
+    """A history on ONE AngleInterval object. Setter arguments are given relative to the bounds the object has when the
+    step runs (the constructor normalises, so absolute values are not known beforehand)."""
+    r = ctx.rng
+    pi = math.pi
+    length = r.choice([0.0, 0.3, 1.0, pi, 4.0, 5.5, r.uniform(0, 2 * pi - 1e-3), 1, 3])
+    start = r.choice([-pi, 0.0, -2 * pi, r.uniform(-2 * pi, 2 * pi - float(length)), r.uniform(-6 * pi, 6 * pi), -3, 0])
+    steps = []
+    for _ in range(r.randint(3, 8)):
+        op = r.choice(["set", "set", "set", "contains", "contains", "containsI", "add", "sub", "copy", "noise"])
+        st = {"op": op}
+        if op == "set":
+            st["which"] = r.choice(["start", "end"])
+            st["mode"] = r.choice(["len", "len", "len", "same", "other", "cross", "out", "abs"])
+            if st["mode"] == "len":
+                st["v"] = r.choice([0.0, 0.25, 1.0, pi, 4.0, 5.5, r.uniform(0, 2 * pi - 1e-3)])
+            elif st["mode"] == "cross":
+                st["v"] = r.choice([1e-6, 0.5, 3.0])
+            elif st["mode"] == "out":
+                st["v"] = r.choice([2 * pi + 1e-6, 7, 7.5, 100.0])
+            elif st["mode"] == "abs":
+                st["v"] = r.choice([-2 * pi, 2 * pi, -pi, pi, 0.0, 0, -6, 6, 3, -3, enc_np("f64", 1.5), enc_np("i64", -1)])
+        elif op == "contains":
+            st["thetas"] = [r.choice([r.uniform(-7, 7), r.randint(-7, 7), r.uniform(-7, 7) + 2 * pi * r.choice([-3, 5, 100])]) for _ in range(5)]
+            st["rel"] = [r.choice([-0.01, 0.0, 0.01]) for _ in range(2)]         # next to the current start / end
+        elif op == "containsI":
+            st["frac"] = [r.choice([0.0, 0.25, 0.5]), r.choice([0.5, 0.75, 1.0, 1.1])]   # J = I's sub-arc [f0, f1] (f1 > 1: sticks out)
+            st["turn"] = r.choice([0, 0, 1, -1])
+        elif op in ("add", "sub"):
+            st["x"] = r.choice([0.0, 1.0, -1.0, pi, -2 * pi, 3.5, r.uniform(-6, 6), 1, -2, 40.0])
+        elif op == "copy":
+            st["how"] = r.choice(COPIES)
+        elif op == "noise":
+            st["what"] = r.choice(NOISE)
+        steps.append(st)
+    return {"kind": "aprog", "s": start, "e": start + length, "steps": steps}
+
+
+def run_aprog(ctx, raw):
+    from commonroad.common.util import AngleInterval
+    ctx.case(raw)
+    ctx.tag("aprog/case")
+    tau = _tau()
+    T = frac(tau)
+    band = BAND
+    eps = AngleInterval._TOLERANCE if hasattr(AngleInterval, "_TOLERANCE") else 0.0
+    s, e = val(raw["s"]), val(raw["e"])
+    if abs(frac(e) - frac(s) - T) < band:
+        return
+    r0 = call(AngleInterval, s, e)
+    if r0[0] != "ok":
+        ctx.fail(f"C16/AngleInterval.__init__/raises-{r0[1]}", f"AngleInterval({s!r},{e!r}) raised {r0[2]}", raw)
+        return
+    cur = r0[1]
+    A, B = frac(cur.start), frac(cur.end)            # the construction itself is judged by the `angle` stream
+    head = f"a history on AngleInterval({s!r},{e!r})"
+    olds = []
+    only_setters, msteps, mimpl, a0 = True, [], [], (A, B)
+    nset = 0
+    prev_failed = False
+    for k, st in enumerate(raw["steps"]):
+        op = st["op"]
+        desc = f"step {k} ({op}) of {head}, object [{float(A)},{float(B)}]"
+        failed_now = False
+        if op == "set":
+            which, mode = st["which"], st["mode"]
+            lo_f, hi_f = cur.start, cur.end
+            sv = val(st.get("v"))
+            if mode == "len":
+                v = float(hi_f) - sv if which == "start" else float(lo_f) + sv
+            elif mode == "same":
+                v = lo_f if which == "start" else hi_f
+            elif mode == "other":
+                v = hi_f if which == "start" else lo_f          # zero length: the same object's other bound handed over
+            elif mode == "cross":
+                v = float(hi_f) + sv if which == "start" else float(lo_f) - sv
+            elif mode == "out":
+                v = -sv if which == "start" else sv
+            else:
+                v = sv
+            V = frac(v)
+            if abs(abs(V) - T) < band and abs(V) != T:
+                continue                                        # within round-off of +-2pi: validity not determined
+            nA, nB = (V, B) if which == "start" else (A, V)
+            want_ok = -T <= V <= T and nA <= nB
+            if want_ok and nB - nA >= T - band:
+                continue                                        # would leave the property's quantifier (length < 2pi)
+            r5 = call(setattr, cur, which, v)
+            nset += 1
+            ctx.tag("aprog/setter-ok" if want_ok else "aprog/setter-rejected")
+            if nset >= 2:
+                ctx.tag("aprog/several-setters")
+            if prev_failed:
+                ctx.tag("aprog/op-after-failed-op")
+            if which == "start":
+                ctx.tag("aprog/start-setter")
+            impl = {"ok": [rat(cur.start), rat(cur.end)]} if r5[0] == "ok" else {"err": r5[1]}
+            if ctx.driver is not None:
+                model = ctx.driver.ask("C16", "a_set_" + which, {"tau": rat(tau), "a": rat(A), "b": rat(B), "x": rat(v)})
+                ctx.compare(raw, impl, model, f"AngleInterval.{which} setter vs CR.Iv.set{which.capitalize()}Angle")
+            msteps.append({"op": "set_" + which, "x": rat(v)})
+            mimpl.append(impl)
+            if want_ok and r5[0] != "ok":
+                ctx.fail(f"C16/history/AngleInterval.{which}-setter/raises-{r5[1]}", f"{desc}: {which} = {v!r} raised {r5[2]}", raw)
+                return
+            if not want_ok and r5[0] == "ok":
+                ctx.fail(f"C16/history/AngleInterval.{which}-setter/not-rejected", f"{desc}: {which} = {v!r} (outside [-2pi,2pi] or crossing) accepted", raw)
+                return
+            if want_ok:
+                A, B = nA, nB
+            failed_now = not want_ok
+        elif op == "contains":
+            ths = list(st["thetas"]) + [float(cur.start) + st["rel"][0], float(cur.end) + st["rel"][1]]
+            impl, keep = member_checks(ctx, raw, head + f" at step {k}", cur, ths, A, B, "contains-in-history", T, band)
+            ctx.tag("aprog/query")
+            if keep and ctx.driver is not None:
+                model = ctx.driver.ask("C16", "a_contains", {"tau": rat(tau), "eps": rat(eps), "a": rat(cur.start), "b": rat(cur.end),
+                                                             "thetas": [rat(t) for t in keep]})
+                ctx.compare(raw, impl, model, "AngleInterval.contains inside a history vs CR.Iv.containsAngle")
+            if ctx.failures and ctx.failures[-1].case is not raw and ctx.failures[-1].key.endswith("contains-in-history/wrong-membership"):
+                ctx.failures[-1].case = raw                      # the failing angle alone does not replay a history
+                return
+        elif op == "containsI":
+            ln = float(cur.end) - float(cur.start)
+            c = float(cur.start) + st["frac"][0] * ln + st["turn"] * tau
+            d = float(cur.start) + st["frac"][1] * ln + st["turn"] * tau
+            rj = call(AngleInterval, c, d)
+            if rj[0] == "ok":
+                ctx.tag("aprog/query")
+                containsI_check(ctx, raw, cur, rj[1], T, band, eps, tau, label="contains(interval)-in-history")
+        elif op in ("add", "sub"):
+            only_setters = False
+            x = val(st["x"])
+            r4 = call((lambda: cur + x) if op == "add" else (lambda: cur - x))
+            if r4[0] != "ok":
+                ctx.fail(f"C16/history/AngleInterval.{op}/raises-{r4[1]}", f"{desc} {op} {x!r} raised {r4[2]}", raw)
+                return
+            sh = r4[1]
+            sgn = 1 if op == "add" else -1
+            if ctx.driver is not None:
+                model = ctx.driver.ask("C16", "a_" + op, {"tau": rat(tau), "a": rat(cur.start), "b": rat(cur.end), "x": rat(x)})
+                cmp_norm(ctx, raw, (sh.start, sh.end), model, (A + sgn * frac(x), B + sgn * frac(x)), T, band, f"AngleInterval {op} in a history vs CR.Iv")
+            nA, nB = frac(sh.start), frac(sh.end)
+            kk = round((nA - (A + sgn * frac(x))) / T)
+            if not (type(sh) is AngleInterval and abs(nA - (A + sgn * frac(x)) - kk * T) <= band and abs((nB - nA) - (B - A)) <= band
+                    and -T <= nA <= nB <= T):
+                ctx.fail(f"C16/history/AngleInterval.{op}/wrong-set", f"{desc} {op} {x!r} -> [{sh.start},{sh.end}]: not the image set in [-2pi,2pi]", raw)
+                return
+            ctx.tag("aprog/chain")
+            olds.append((cur, (A, B), f"the operand of {op} at step {k}"))
+            cur, A, B = sh, nA, nB
+        elif op == "copy":
+            only_setters = only_setters and True
+            rc = call(_copy_of, cur, st["how"])
+            if rc[0] != "ok":
+                ctx.fail(f"C16/history/AngleInterval.copy/raises-{rc[1]}", f"{desc}: {st['how']} raised {rc[2]}", raw)
+                return
+            ctx.tag("aprog/copy")
+            olds.append((cur, (A, B), f"the object a {st['how']} was taken from at step {k}"))
+            cur = rc[1]
+            if type(cur) is not AngleInterval or (frac(cur.start), frac(cur.end)) != (A, B):
+                ctx.fail("C16/history/AngleInterval.copy/wrong-set", f"{desc}: the {st['how']} is [{cur.start},{cur.end}]", raw)
+                return
+        elif op == "noise":
+            _noise(cur, st["what"])
+        prev_failed = failed_now
+        if (frac(cur.start), frac(cur.end)) != (A, B):
+            ctx.fail(f"C16/history/AngleInterval.{op}/object-changed", f"{desc}: the object is now [{cur.start},{cur.end}], "
+                     f"expected [{float(A)},{float(B)}]", raw)
+            return
+    for o, (ea, eb), what in olds:
+        if (frac(o.start), frac(o.end)) != (ea, eb):
+            ctx.fail("C16/history/AngleInterval/earlier-object-changed", f"{what} was [{float(ea)},{float(eb)}] and is now [{o.start},{o.end}]", raw)
+            return
+    if only_setters and msteps and ctx.driver is not None:
+        ctx.tag("aprog/model-trace")
+        model = ctx.driver.ask("C16", "a_prog", {"tau": rat(tau), "a": rat(a0[0]), "b": rat(a0[1]), "steps": msteps})
+        ctx.compare(raw, {"trace": mimpl, "final": [rat(cur.start), rat(cur.end)]}, model, "setter history on an AngleInterval vs CR.Iv.runOpsA / finalOpsA")
+
+
+# ------------------------------------------------------------------------------------------------ the normalisation functions
+
+def gen_norm(ctx):
+    r = ctx.rng
+    tau = _tau()
+    k = r.choice([0, 1, -1, 2, -2, 3, -5, 17, -64, 300, -450])
+    x = r.choice([k * tau, k * tau + r.choice([1e-7, -1e-7, 0.5, -0.5]), r.uniform(-7, 7) + k * tau, r.randint(-40, 40), float(r.randint(-2000, 2000)),
+                  tau, -tau, 0.0, -0.0])
+    if r.random() < 0.5:
+        return {"kind": "norm", "op": "mvo", "x": x}
+    return {"kind": "norm", "op": "mvoi", "x": x, "len": r.choice([0.0, 1e-7, 1.0, math.pi, 6.0, tau - 1e-6, 1, 6])}
+
+
+def run_norm(ctx, raw):
+    """make_valid_orientation (tied, not part of the property sentence: correspondence only) and
+    make_valid_orientation_interval (the constructor's normalisation: same set, inside [-2pi, 2pi])."""
+    from commonroad.common.util import make_valid_orientation, make_valid_orientation_interval
+    ctx.case(raw)
+    tau = _tau()
+    T = frac(tau)
+    x = val(raw["x"])
+    band = BAND + abs(frac(x)) * abs(frac(x)) * Fraction(1, 10 ** 16)
+    if raw["op"] == "mvo":
+        ctx.tag("norm/make_valid_orientation")
+        r = call(make_valid_orientation, x)
+        if r[0] != "ok":
+            ctx.compare(raw, {"err": r[1]}, {"ok": "number"}, "make_valid_orientation raised")
+            return
+        model = ctx.driver.ask("C16", "make_valid", {"tau": rat(tau), "x": rat(x)})
+        cmp_norm(ctx, raw, (r[1], r[1]), {"ok": [model["ok"], model["ok"]]}, (x,), T, band, "make_valid_orientation vs CR.Iv.makeValid")
+        return
+    ctx.tag("norm/make_valid_orientation_interval")
+    e = x + raw["len"]
+    if abs(frac(x)) > 10 * T:
+        ctx.tag("norm/many-turns")
+    r = call(make_valid_orientation_interval, x, e)
+    if r[0] != "ok":
+        ctx.fail(f"C16/make_valid_orientation_interval/raises-{r[1]}", f"make_valid_orientation_interval({x!r},{e!r}) raised {r[2]}", raw)
+        return
+    ns, ne = r[1]
+    model = ctx.driver.ask("C16", "make_valid_interval", {"tau": rat(tau), "s": rat(x), "e": rat(e)})
+    cmp_norm(ctx, raw, (ns, ne), model, (x, e), T, band, "make_valid_orientation_interval vs CR.Iv.makeValidInterval")
+    k = round((frac(ns) - frac(x)) / T)
+    if not (abs(frac(ns) - frac(x) - k * T) <= band and abs((frac(ne) - frac(ns)) - (frac(e) - frac(x))) <= band
+            and -T <= frac(ns) and frac(ne) <= T):
+        ctx.fail("C16/make_valid_orientation_interval/wrong-normalisation",
+                 f"make_valid_orientation_interval({x!r},{e!r}) = ({ns},{ne}): not the same angles inside [-2pi,2pi]", raw)
+
+
 def run_case(ctx, case):
     if case["kind"] in ("plain", "plainf"):
         run_plain(ctx, case)
     elif case["kind"] == "prog":
         run_prog(ctx, case)
+    elif case["kind"] == "aprog":
+        run_aprog(ctx, case)
+    elif case["kind"] == "norm":
+        run_norm(ctx, case)
     else:
         run_angle(ctx, case)
 
@@ -950,6 +1185,10 @@ def run(ctx):
         run_case(ctx, gen_prog(ctx))
     for _ in range(ctx.n(2500)):
         run_case(ctx, gen_angle(ctx))
+    for _ in range(ctx.n(700)):
+        run_case(ctx, gen_aprog(ctx))
+    for _ in range(ctx.n(300)):
+        run_case(ctx, gen_norm(ctx))
 
 
 search = run
